@@ -623,8 +623,18 @@ def _descent_cases(rng, tier, cs):
             dd = float(gx.inner(d))
         ls = BacktrackingLineSearch(f, tau=tau, discount=disc, alpha=alpha, max_num_iter=mni, estimate_step=est)
         res, a = _run_ls(ls, x, d, dd)
-        term = 'CLs ' + _rec(ls_obj=ot, ls_tau=C.q(tau), ls_disc=C.q(disc), ls_mni=C.nat(mni), ls_est=C.b(est),
-                             ls_alpha=C.q(alpha), ls_x=C.qs(x0), ls_d=C.qs(_flat(d)), ls_dd=C.q(dd), ls_res_=res)
+        first = _rec(ls_obj=ot, ls_tau=C.q(tau), ls_disc=C.q(disc), ls_mni=C.nat(mni), ls_est=C.b(est),
+                     ls_alpha=C.q(alpha), ls_x=C.qs(x0), ls_d=C.qs(_flat(d)), ls_dd=C.q(dd), ls_res_=res)
+        term = 'CLs ' + first
+        if a is not None and rng.random() < 0.6:
+            # call the same object again from the point reached: exercises the stored alpha
+            x2 = x + a * d
+            g2 = f.gradient(x2)
+            d2 = -g2 if rng.random() < 0.7 else g2.copy()
+            dd2 = float(g2.inner(d2))
+            res2, _a2 = _run_ls(ls, x2, d2, dd2)
+            term = 'CLs2 ' + _rec(l2_first=first, l2_x=C.qs(_flat(x2)), l2_d=C.qs(_flat(d2)), l2_dd=C.q(dd2),
+                                  l2_res=res2)
         cs.add(term, {'solver': 'BacktrackingLineSearch', 'objective': od, 'tau': tau, 'discount': disc,
                       'max_num_iter': mni, 'estimate_step': est, 'alpha': alpha, 'x': x0, 'd': _flat(d).tolist(),
                       'dir_derivative': dd, 'result': res},
